@@ -663,7 +663,7 @@ fn check_arg_lists(cli: &Cli, r: &Report) {
 
 #[derive(Clone, Debug)]
 struct Sib {
-    kind: u8, // 0 bench, 1 args bench, 2 group module, 3 plain module, 4 generic types, 5 generic consts
+    kind: u8, // 0 bench, 1 args bench, 2 group module, 3 plain module, 4 generic types, 5 generic consts, 6 plain module in plain module
     name: &'static str,
     file: &'static str,
     line: u32,
@@ -688,8 +688,24 @@ fn build(sibs: &[Sib]) -> Built {
                 b.groups.push(group_entry(s.name, &raw_of(s.name), "zoo", s.line, s.col));
             }
             3 => {
-                // plain module: its location is its earliest child's
+                // plain module: its location is its earliest child's. A second child lies after every
+                // sibling (a module whose items are spread over the file, or over several files): the
+                // module's position is still its earliest item's, under --sort and under --sortr.
+                // The later child is registered first.
+                let late_file = if s.file == "zoo.rs" { "zoo.rs" } else { "zz.rs" };
+                CURRENT_FILE.with(|f| f.set(late_file));
+                b.benches.push(bench_entry("inner_late", leak(&format!("zoo::{}", raw_of(s.name))), 1000 + s.line, 3));
+                CURRENT_FILE.with(|f| f.set(s.file));
                 b.benches.push(bench_entry("inner", leak(&format!("zoo::{}", raw_of(s.name))), s.line, s.col));
+            }
+            6 => {
+                // plain module holding a plain module (with the earliest item) and a late item of its own
+                let late_file = if s.file == "zoo.rs" { "zoo.rs" } else { "zz.rs" };
+                CURRENT_FILE.with(|f| f.set(late_file));
+                b.benches.push(bench_entry("late", leak(&format!("zoo::{}", raw_of(s.name))), 2000 + s.line, 3));
+                b.benches.push(bench_entry("deep_late", leak(&format!("zoo::{}::sub", raw_of(s.name))), 3000 + s.line, 3));
+                CURRENT_FILE.with(|f| f.set(s.file));
+                b.benches.push(bench_entry("deep", leak(&format!("zoo::{}::sub", raw_of(s.name))), s.line, s.col));
             }
             4 => b.groups.push(generic_entry(s.name, "zoo", s.line, s.col, Some(&[2, 0, 1]), None)),
             _ => b.groups.push(generic_entry(s.name, "zoo", s.line, s.col, None, Some(&[10, 9, 100, -1]))),
@@ -753,7 +769,7 @@ fn check_siblings(cli: &Cli, r: &Report) {
     // (`a5` is written with a raw identifier: it sorts under its display name, before `b`, while its raw
     // spelling `r#a5` would come after)
     let names: [&'static str; 6] = ["a2", "a5", "a10", "b", "A", "a02"];
-    let kinds: &[u8] = &[0, 1, 2, 3, 4, 5];
+    let kinds: &[u8] = &[0, 1, 2, 3, 4, 5, 6];
     // every set of <= 3 (4 thorough) siblings with distinct names, lines assigned
     // in declaration order or reversed
     let max = if cli.thorough { 4 } else { 3 };
@@ -784,6 +800,9 @@ fn check_siblings(cli: &Cli, r: &Report) {
             // address (no documented order), so the sets are those with at most one such item next to
             // plain modules: there kind, then name decide, as documented.
             if line_mode == 4 && !(combo.iter().filter(|c| c.0 != 3).count() <= 1 && combo.iter().any(|c| c.0 == 3)) {
+                continue;
+            }
+            if line_mode == 4 && combo.iter().any(|c| c.0 == 6) {
                 continue;
             }
             // (`a2` and `a02` are equal in the natural order: at one location and of one kind they tie on
@@ -873,6 +892,11 @@ fn check_siblings(cli: &Cli, r: &Report) {
                     (4, _) => Some(vec!["TyA", "TyB", "TyC"]),
                     (5, 2) => Some(vec!["10", "9", "100", "-1"]),
                     (5, _) => Some(vec!["-1", "9", "10", "100"]),
+                    // the two items of a plain module: both benchmarks, `inner` < `inner_late` by name and by location
+                    (3, _) => Some(vec!["inner", "inner_late"]),
+                    // a benchmark and a module: by kind and by name `late` first, by location the module (its earliest item)
+                    (6, 2) => Some(vec!["sub", "late"]),
+                    (6, _) => Some(vec!["late", "sub"]),
                     _ => None,
                 };
                 if let Some(w) = want_inner {
@@ -1015,7 +1039,7 @@ fn main() {
         "natural_cmp": {"alphabet": SYMS, "max_len": 4, "transitivity_max_len": if cli.thorough {4} else {3}},
         "arg_labels": {"numeric": NUMERIC, "identifiers": IDENTS, "odd": ODD},
         "arg_lists": {"pools": ["integers","big integers","floats","identifiers","mixed"], "max_len": if cli.thorough {5} else {4}},
-        "siblings": {"kinds": ["bench","args bench","group module","plain module","generic types","generic consts"], "names": ["a2","a10","b","A","a02"], "max": if cli.thorough {4} else {3}, "line_modes": ["declaration order","reversed","one line, distinct columns"]}
+        "siblings": {"kinds": ["bench","args bench","group module","plain module (two items, the later one after every sibling)","generic types","generic consts","plain module in a plain module"], "names": ["a2","a10","b","A","a02"], "max": if cli.thorough {4} else {3}, "line_modes": ["declaration order","reversed","one line, distinct columns"]}
     }));
     r.emit();
 }
